@@ -30,6 +30,23 @@ def run(tier, replay_file=None):
         hs, _ = gen.histories("Server", consts(insts, 3, sv=sv), 16 if quick else 28, simulate=14 if quick else 150,
                               seed=common.seed() * 10 + n + 1, cache=False)
         sets.append((hs, bc))
+    # instance life cycles: an instance that began a session with settings is stopped (or just sits there) while another
+    # one is started and begins a session without settings
+    c = consts('{"i1","i2"}', 3, kv='{0,3}', sv='{0}')
+    c["Ops"] = '{"Start","Begin","Step","Stop"}'
+    c["Scen"] = '{"base"}'
+    hs, _ = gen.histories("Server", c, 7, simulate=60 if quick else 600, seed=common.seed() * 10 + 7, cache=False)
+    sets.append((hs, False))
+    # ... and the same life cycle enumerated exhaustively over which instance is which (incl. the same id started again)
+    LIFE = ('MC_Life == LET n == Len(hist\') h == hist\'[n] IN\n'
+            '   /\\ (n \\in {1, 5} => h.op = "Start")\n'
+            '   /\\ (n = 2 => h.op = "Begin" /\\ h.kv = 3 /\\ h.status = 200)\n'
+            '   /\\ (n \\in {3, 7} => h.op = "Step" /\\ h.status = 200)\n'
+            '   /\\ (n = 4 => h.op = "Stop")\n'
+            '   /\\ (n = 6 => h.op = "Begin" /\\ h.kv = 0 /\\ h.status = 200)\n')
+    hl, _ = gen.histories("Server", c, 7, defs=LIFE, extra_cfg={"action_constraints": ["MC_Life"]})
+    R.cov["life_cycle_histories"] = len(hl)
+    sets.append((hl, False))
     compared = 0
     for hs, bc in sets:
         for hist in hs:
